@@ -28,6 +28,26 @@ func main() {
 		cmdCheck(os.Args[2:])
 	case "list":
 		cmdList(os.Args[2:])
+	case "lemmas":
+		P, err := loadProgram(envOr("YQ_REPO", "/repo"), envOr("VERIF_DIR", "/verif"))
+		if err != nil {
+			fmt.Fprintln(os.Stderr, err)
+			os.Exit(2)
+		}
+		dir, cleanup := tempDir()
+		defer cleanup()
+		id := ""
+		if len(os.Args) > 2 {
+			id = os.Args[2]
+		}
+		for _, pid := range []string{"C01", "C02", "C03", "C04", "C05", "C06", "C07", "C08", "C09", "C10", "C11", "C12", "C13", "C15", "C16", "C17", "C18", "C19"} {
+			if id != "" && id != pid {
+				continue
+			}
+			for _, r := range P.runLemmas(pid, dir, 10000, true) {
+				fmt.Printf("%-5v %s  %s\n", r.OK, r.Name, strings.SplitN(r.Detail, "\n", 2)[0])
+			}
+		}
 	case "warm":
 		if _, err := loadProgram(envOr("YQ_REPO", "/repo"), envOr("VERIF_DIR", "/verif")); err != nil {
 			fmt.Fprintln(os.Stderr, "warm:", err)
@@ -72,6 +92,7 @@ func cmdVC(args []string) {
 	fs := flag.NewFlagSet("vc", flag.ExitOnError)
 	mode := fs.String("mode", "safety,functional,frames", "obligation kinds")
 	dump := fs.Bool("dump", false, "print the VC text")
+	verbose := fs.Bool("v", false, "print solver output of failed obligations")
 	timeout := fs.Int("t", 5000, "solver timeout ms")
 	only := fs.String("only", "", "substring filter on obligation names")
 	keep := fs.String("keep", "", "directory to keep query files in")
@@ -116,7 +137,7 @@ func cmdVC(args []string) {
 		os.Exit(2)
 	}
 	if *dump {
-		fmt.Println(P.vcText(vc, -1))
+		fmt.Println(P.vcText(vc, -1, ""))
 	}
 	dir := *keep
 	if dir == "" {
@@ -134,8 +155,8 @@ func cmdVC(args []string) {
 			bad++
 		}
 		fmt.Printf("%-5s %-8s %-7s %5dms  %s  (%s:%d)\n", status, r.Res.Verdict, r.Res.Solver, r.Res.Ms, r.Obl.Name, shortFile(r.Obl.Pos.Filename), r.Obl.Pos.Line)
-		if !r.OK && *dump {
-			fmt.Println(r.Res.Output)
+		if !r.OK && (*dump || *verbose) {
+			fmt.Println(truncate(r.Res.Output, 1500))
 		}
 	}
 	for _, n := range vc.Notes {
